@@ -185,12 +185,21 @@ def search(ctx, failing_ops):
     return found
 
 MANIFEST = {
-    "text": ("Kernel-checked Lean theorems: all 65536 entries of both copies of jpeg_nbits_table (regenerated from the tree each run) "
-             "equal floor(log2 x)+1, the clz form likewise for all 32-bit x; canonical-code theorems for the derived tables "
-             "(see Props/C19.lean for the list proved so far; unproved clauses are named *_partial). The table generator and the "
-             "derived-table builders are tied to the C functions by exact output comparison on seeded histograms/tables."),
-    "design_ref": "DESIGN.md 6.19",
+    "text": ("Kernel-checked Lean theorems, every clause of the property: (1) jpeg_gen_optimal_table (Annex K.2 as coded, modelled as the "
+             "forest of trees the freq/codesize/others arrays encode): for EVERY histogram of up to 256 symbols with total count below "
+             "10^9 the function either takes the JERR_HUFF_CLEN_OVERFLOW exit or returns bits[] whose counts of lengths 1..16 add up to "
+             "the number of non-zero symbols, with bits[0] = 0, no count above 255 (UINT8 copy-out exact), Kraft sum = 1 minus exactly "
+             "one code point of the longest length (so no code is all ones), accepted by the code-space check of both derived-table "
+             "builders; and huffval[] a permutation of exactly the non-zero symbols ordered by Huffman code length - which needs the "
+             "lemma that the pseudo-symbol ends on the deepest level (proved with a tie-break-aware invariant over creation keys).  "
+             "(2) encoder- and decoder-side derived tables of any accepted table are mutual inverses, prefix-free, no code all ones.  "
+             "(3) all 65536 entries of both copies of jpeg_nbits_table (regenerated from the tree each run) equal floor(log2 x)+1, the "
+             "clz form likewise for all 32-bit x.  The generator and the derived-table builders are tied to the C functions by exact "
+             "output comparison on seeded histograms/tables (tie-break-sensitive, Fibonacci-like up to depth 32 and beyond, equal "
+             "counts, 256 symbols, counts near 10^9) and by every optimised / progressive / lossless file of C02 and C04."),
+    "design_ref": "DESIGN.md I.6 C19, 6.19",
     "note": ("Trusted: Lean kernel; axioms propext, Quot.sound, Classical.choice; Gen translator; the hand model of jchuff.c/jdhuff.c "
-             "(tied by correspondence, not verified); clauses about jpeg_gen_optimal_table not yet proved rest on correspondence + oracle."),
-    "technique": "Lean 4 proof (decide +kernel over regenerated tables, induction) + model/code correspondence",
+             "(tied by correspondence, not verified line by line).  Histograms that force a Huffman depth above 32 (Fibonacci-like counts "
+             "adding up to more than about 10^7) end in the error exit, outside the depths the property names."),
+    "technique": "Lean 4 proof (forest invariants by induction over the merge loop, Kraft-sum invariant of the limiting loop, counting-sort placement; decide +kernel over regenerated tables) + model/code correspondence",
 }
